@@ -19,6 +19,7 @@ double ulpFloat(double v) {
   return (double)(std::nextafter(f, INFINITY) - f);
 }
 
+bool judgeSpec(CircuitSpec s, const ColoquinteParameters &params, bool k17, Report &R);
 }  // namespace
 
 bool prop(Tape &t, Report &R) {
@@ -74,6 +75,24 @@ bool prop(Tape &t, Report &R) {
     po.maxNbSteps = R.thorough() ? 60 : 30;
     params = genParams(t, po, &s.labels);
   }
+  if (!judgeSpec(s, params, k17, R)) return false;
+  // occasionally also a large companion instance (decided at the very end of the tape)
+  uint32_t tail = t.next();
+  if (tail % 48 == 1 && !(!t.w.empty() && t.w[0] == 0xE7E7E7E7u)) {
+    o.anchorPct = 100;
+    CircuitSpec big = genLargeCircuit(tail, o, 200);
+    if (unanchoredComponents(big).empty()) {
+      R.classify(big.nbMovable() >= 100 ? "large:100+cells" : "large:<100cells");
+      ColoquinteParameters p2 = params;
+      p2.global.maxNbSteps = std::min(p2.global.maxNbSteps, 12);
+      if (!judgeSpec(big, p2, k17, R)) return false;
+    }
+  }
+  return true;
+}
+
+namespace {
+bool judgeSpec(CircuitSpec s, const ColoquinteParameters &params, bool k17, Report &R) {
   // magnitude ratio rho = distance(origin, area) / average cell length
   long long aMinX = LLONG_MAX, aMaxX = LLONG_MIN, aMinY = LLONG_MAX, aMaxY = LLONG_MIN;
   for (auto &r : s.rows) {
@@ -223,6 +242,7 @@ bool prop(Tape &t, Report &R) {
   }
   return judge(R);
 }
+}  // namespace
 
 bool exhaustive(Report &, int, int, Tape &) { return true; }
 }  // namespace verif
